@@ -43,6 +43,9 @@ def line(req):
     if op == 'visit':
         from . import real_disc
         return real_disc.visit_line(req)
+    if op in ('render', 'pvisit', 'ptruth', 'pauto'):
+        from . import real_disc
+        return real_disc.prog_line(op, req[1]) + (' pmask' if False else '')
     if op in ('pyeq', 'pyne', 'hasheq'):
         from . import real_rt
         return '%s %s %s' % (op, real_rt.obj_line(req[1]), real_rt.obj_line(req[2]))
@@ -100,10 +103,12 @@ def parse_model(req, ml):
     toks = ml.split()
     if not toks or toks[0] == 'bad-op':
         raise core.HarnessError('driver answered %r to %r' % (ml, line(req)))
-    if op == 'visit':
+    if op in ('visit', 'pvisit', 'ptruth'):
         if toks[0] == 'err':
             return ('err', toks[1])
         return ('ok', int(toks[1]), toks[2] if len(toks) > 2 else '_')
+    if op == 'render':
+        return ('ok', ' '.join(toks[1:]))
     if op in ('pyeq', 'pyne', 'hasheq'):
         if toks[0] == 'ok':
             return ('ok', toks[1] == 'true')
